@@ -85,3 +85,37 @@ Fixpoint wf_seq (s : mst) (ops : list op) : bool :=
   | [] => true
   | o :: r => wf_op s o && wf_seq (fst (m_step s o)) r
   end.
+
+(* ---- for the comparison with the POSIX specification: files and directories are not confused
+        through handles either — byte I/O goes to handles on regular files, directory reading to
+        handles on directories that still have a name ---- *)
+Definition handle_node (s : mst) (i : nat) : option (nat * node) :=
+  match nth_error (mhandles s) i with
+  | Some h => match get_node s (href h) with Some n => Some (href h, n) | None => None end
+  | None => None
+  end.
+Definition file_handle_ok (s : mst) (i : nat) : bool :=
+  match nth_error (mhandles s) i with
+  | None => true
+  | Some h => match get_node s (href h) with Some n => negb (ndir n) | None => false end
+  end.
+Definition dir_handle_ok (s : mst) (i : nat) : bool :=
+  match nth_error (mhandles s) i with
+  | None => true
+  | Some h => match get_node s (href h) with
+              | Some n => ndir n && existsb (fun kv => Nat.eqb (snd kv) (href h)) (mdata s)
+              | None => false
+              end
+  end.
+Definition wf_op_sim (s : mst) (o : op) : bool :=
+  wf_op s o &&
+  match o with
+  | HRead i _ | HReadAt i _ _ | HWrite i _ | HWriteAt i _ _ | HWriteString i _ | HSeek i _ _ | HTruncate i _ => file_handle_ok s i
+  | HReaddir i _ | HReaddirnames i _ => dir_handle_ok s i
+  | _ => true
+  end.
+Fixpoint wf_seq_sim (s : mst) (ops : list op) : bool :=
+  match ops with
+  | [] => true
+  | o :: r => wf_op_sim s o && wf_seq_sim (fst (m_step s o)) r
+  end.
